@@ -1,2 +1,121 @@
+//! SKK import: the line parser, the noun / jinmei / tankan converters and the notes converter, compiled from the
+//! repository sources (the converters live in binary crates, so their modules are included by path in main.rs).
+use std::panic::{catch_unwind, AssertUnwindSafe};
+
+use dic::base::entry::Entry;
 use serde_json::{json, Value};
-pub fn run(_op: &str, _v: &Value) -> Value { json!({"error": "todo"}) }
+
+use crate::note_grammer::{NoteSpeech, Okuri};
+
+fn panic_msg(e: Box<dyn std::any::Any + Send>) -> String {
+    if let Some(s) = e.downcast_ref::<&str>() {
+        s.to_string()
+    } else if let Some(s) = e.downcast_ref::<String>() {
+        s.clone()
+    } else {
+        "panic".to_string()
+    }
+}
+
+/// what chokan-dic's reader makes of an emitted line
+#[cfg(chokan_verif)]
+fn readback(line: &str) -> Value {
+    match dic::standard::verif::parse_entry(line) {
+        Ok(es) => json!({"ok": es.iter().map(crate::ops_dic::entry_json).collect::<Vec<_>>()}),
+        Err(_) => json!({"err": true}),
+    }
+}
+#[cfg(not(chokan_verif))]
+fn readback(_line: &str) -> Value {
+    json!({"err": "no hooks"})
+}
+
+fn emitted(entries: Vec<Entry>) -> Value {
+    Value::Array(
+        entries
+            .iter()
+            .map(|e| {
+                let line = format!("{}", e);
+                json!({"line": line, "entry": crate::ops_dic::entry_json(e), "readback": readback(&line)})
+            })
+            .collect(),
+    )
+}
+
+fn okuri_json(o: &Okuri) -> Value {
+    match o {
+        Okuri::Fixed(v) => json!({"fix": v}),
+        Okuri::CharClass(v) => json!({"class": v}),
+    }
+}
+
+fn opt_okuri_json(o: &Option<Okuri>) -> Value {
+    match o {
+        Some(o) => okuri_json(o),
+        None => Value::Null,
+    }
+}
+
+fn speech_json(s: &NoteSpeech) -> Value {
+    match s {
+        NoteSpeech::Verb(form, o) => json!({"k": "Verb", "form": serde_json::to_value(form).unwrap(), "o": opt_okuri_json(o)}),
+        NoteSpeech::Adjective(o) => json!({"k": "Adjective", "o": opt_okuri_json(o)}),
+        NoteSpeech::AdjectivalVerb(o) => json!({"k": "AdjectivalVerb", "o": okuri_json(o)}),
+        NoteSpeech::Adverb(o) => json!({"k": "Adverb", "o": okuri_json(o)}),
+        NoteSpeech::Noun(t, o) => json!({"k": "Noun", "typ": t, "o": opt_okuri_json(o)}),
+        NoteSpeech::Counter(o) => json!({"k": "Counter", "o": okuri_json(o)}),
+        NoteSpeech::Verbatim(o) => json!({"k": "Verbatim", "o": okuri_json(o)}),
+        NoteSpeech::PreNounAdjectival(o) => json!({"k": "PreNoun", "o": opt_okuri_json(o)}),
+        NoteSpeech::ConjuctiveParticle(o) => json!({"k": "ConjParticle", "o": opt_okuri_json(o)}),
+        NoteSpeech::Conjunction(o) => json!({"k": "Conjunction", "o": opt_okuri_json(o)}),
+    }
+}
+
+pub fn run(op: &str, v: &Value) -> Value {
+    let line = v["line"].as_str().unwrap_or("");
+    match op {
+        "skk_line" => match skk_dic_parser::parse_skk_entry(line) {
+            Ok(None) => json!({"ok": null}),
+            Ok(Some(e)) => json!({"ok": {"reading": e.reading(), "okuri": e.okuri(), "words": e.words()}}),
+            Err(_) => json!({"err": true}),
+        },
+        "skk_nouns" => match crate::noun_converter::parse_nouns(line) {
+            Ok(None) => json!({"ok": null}),
+            Ok(Some(n)) => json!({"ok": emitted(n.to_entries())}),
+            Err(_) => json!({"err": true}),
+        },
+        "skk_propers" => match crate::jinmei_converter::parse_propers(line) {
+            Ok(None) => json!({"ok": null}),
+            Ok(Some(n)) => json!({"ok": emitted(n.to_entries())}),
+            Err(_) => json!({"err": true}),
+        },
+        "skk_tankan" => match crate::tankan_grammer::parse_tankan(line) {
+            Ok(None) => json!({"ok": null}),
+            Ok(Some(n)) => json!({"ok": emitted(n.to_entries())}),
+            Err(_) => json!({"err": true}),
+        },
+        // parse_note, then Note::to_entries under its own catch_unwind (the explicit unsupported-conjugation panic)
+        "skk_note" => match crate::note_grammer::parse_note(line) {
+            Ok(None) => json!({"ok": null}),
+            Err(_) => json!({"err": true}),
+            Ok(Some(n)) => {
+                let note = json!({"headword": n.headword, "okuri": n.okuri,
+                    "entries": n.entries.iter().map(|e| json!({"stem": e.stem, "speech": speech_json(&e.speech)})).collect::<Vec<_>>()});
+                let conv = match catch_unwind(AssertUnwindSafe(|| n.to_entries())) {
+                    Ok(es) => Value::Array(
+                        es.iter()
+                            .map(|c| {
+                                let l = format!("{}", c);
+                                json!({"line": l, "headword": c.headword, "word": c.word, "speech": serde_json::to_value(&c.speech).unwrap(),
+                                       "ancillary": c.is_ancillary(), "readback": readback(&l)})
+                            })
+                            .collect(),
+                    ),
+                    Err(e) => json!({"panic": panic_msg(e)}),
+                };
+                json!({"ok": note, "conv": conv})
+            }
+        },
+        _ => json!({"error": format!("unknown op {}", op)}),
+    }
+}
